@@ -117,6 +117,12 @@ def storage_layer_requests(r, n_seq, n_ops):
     lines = []
     for _ in range(n_seq):
         lines.append("reset")
+        if r() % 2:
+            # a dense prefix (ascending keys from 0, one kind of value): the dense variants and their transitions on overwrite are
+            # otherwise rare, because the very first insert has to hit key 0
+            kind = ["i", "i", "f", "d", "o"][r() % 5]
+            for j in range(1 + r() % 4):
+                lines.append("insert %d %s:%d 111" % (j, kind, r() % 4))
         for _ in range(n_ops):
             c = r() % 100
             k = r() % 6 if r() % 12 else r() % 40
